@@ -312,3 +312,94 @@ func Mutations(evs []FSEvent) []FSEvent {
 	}
 	return m
 }
+
+// InjectResult extends TraceResult with injection accounting.
+type InjectResult struct {
+	TraceResult
+	Injected      int
+	InjectedCalls []string
+}
+
+// TraceInject runs argv under strace with one -e inject=... spec that is
+// applied only to syscalls touching paths below onlyUnder (-P filter is
+// not used because it also filters the trace; instead the injected
+// calls are counted from the log and classified by path).
+func TraceInject(dir string, argv []string, spec, onlyUnder string, extraPaths []string) InjectResult {
+	tmp, err := os.CreateTemp("", "strace-inj-*.log")
+	if err != nil {
+		return InjectResult{TraceResult: TraceResult{Err: err}}
+	}
+	tmp.Close()
+	defer os.Remove(tmp.Name())
+	// -P restricts tracing (and therefore injection) to syscalls that
+	// access the given paths: list the directory and every file in it.
+	args := []string{"-f", "-qq", "-y", "-s", "4096", "-e", "signal=none", "-e", "trace=" + straceSyscalls + ",read,write,getdents64,fstat,newfstatat,close", "-e", spec, "-o", tmp.Name()}
+	args = append(args, "-P", onlyUnder)
+	filepath.Walk(onlyUnder, func(p string, info os.FileInfo, err error) error {
+		if err == nil && p != onlyUnder {
+			args = append(args, "-P", p)
+		}
+		return nil
+	})
+	// files that do not exist yet (to be created by the command)
+	for _, extra := range extraPaths {
+		args = append(args, "-P", extra)
+	}
+	args = append(args, argv...)
+	cmd := exec.Command("strace", args...)
+	cmd.Dir = dir
+	out, err := cmd.CombinedOutput()
+	res := InjectResult{}
+	res.Output = string(out)
+	if err != nil {
+		if ee, ok := err.(*exec.ExitError); ok {
+			ws := ee.Sys().(syscall.WaitStatus)
+			if ws.Signaled() {
+				res.Signal = ws.Signal().String()
+				res.Exit = 128 + int(ws.Signal())
+			} else {
+				res.Exit = ws.ExitStatus()
+			}
+		} else {
+			res.Err = err
+			return res
+		}
+	}
+	f, err := os.Open(tmp.Name())
+	if err != nil {
+		res.Err = err
+		return res
+	}
+	defer f.Close()
+	sc := bufio.NewScanner(f)
+	sc.Buffer(make([]byte, 1<<20), 16<<20)
+	seq := 0
+	for sc.Scan() {
+		line := sc.Text()
+		res.RawLines++
+		if i := strings.IndexByte(line, ' '); i > 0 {
+			if _, err := strconv.Atoi(line[:i]); err == nil {
+				line = strings.TrimSpace(line[i+1:])
+			}
+		}
+		if strings.Contains(line, "(INJECTED)") {
+			res.Injected++
+			if len(res.InjectedCalls) < 6 {
+				c := line
+				if len(c) > 160 {
+					c = c[:160]
+				}
+				res.InjectedCalls = append(res.InjectedCalls, c)
+			}
+		}
+		// strip -y decorations "3</path>" are only in fd args; path args unchanged
+		ev, ok := parseStraceLine(line, dir)
+		if !ok {
+			continue
+		}
+		ev.Seq = seq
+		seq++
+		res.Events = append(res.Events, ev)
+	}
+	return res
+}
